@@ -391,6 +391,15 @@ NA = {
 def main():
     props = [json.loads(l)["id"] for l in open(os.path.join(V, "properties.jsonl"))]
     checks = []
+    # batch 18 addenda (appended to the claim texts above)
+    for _pid, _t in {
+        "C06": " Command dispatch (MIR): CfnGuard::execute and Commands::execute call exactly the subcommand held, with the writer / reader given, and return that call's Result itself (exit code and Err unchanged).",
+        "C07": " Command dispatch as in C06; the merged input parameters are handed to every evaluation call site of Validate::execute (paths and --payload, plain and --structured; found --payload without --structured ignoring them, fixed); ValidateBuilder::try_build (library entry) returns a Validate holding the builder's own value of every field.",
+        "C17": " List arm of merge (MIR): the receiver's vector is extended exactly once by the second list's own vector, no other vector operation, result Ok(receiver). The merged parameters are handed to every evaluation call site of Validate::execute (one region per site; found `--payload` without `--structured` ignoring -i, fixed in /repo edb1517). ValidateBuilder::try_build hands input_params and every other field on unchanged (replayed through the library builder with data on STDIN).",
+        "C19": " Kani k1_float (Float x Float, every bit pattern) also runs here: two floats compare equal only if IEEE-equal, so a changed float value makes the generated `==` clause FAIL.",
+    }.items():
+        if _t not in CLAIMS[_pid]["text"]:
+            CLAIMS[_pid]["text"] += _t
     for pid in props:
         if pid not in CLAIMS:
             continue
